@@ -23,6 +23,7 @@ LEAF = [
     ("for", "varintFOR.c", ["varintFORComputeWidth"]),
     ("bp128", "varintBP128.c", ["varintBP128BitsNeeded32", "varintBP128BitsNeeded64"]),
     ("pfor", "varintPFOR.c", ["varintPFORCalculateMarker"]),
+    ("adaptive", "varintAdaptive.c", ["varintAdaptiveMaxSize", "size_mul_overflow"]),
 ]
 
 
